@@ -297,6 +297,12 @@ def generate(rng, tier, shard, nshards):
             m1 = np.array([-(c * np.cos(d)) - s_ * np.sin(d), 0.0, -s_ * -np.cos(d) + c * np.sin(d)]) * 45.0
             g = rng.standard_normal((6, 3)) * 0.05
             yield Case("all", "hist:pure-pitch", g=g, a=np.tile(a1, (6, 1)), m=np.tile(m1, (6, 1)), P={}, default=True, seed=1)
+    if shard == 0:
+        # a stationary level sensor whose gyroscope reads exactly its known bias, the bias handed to the filter that takes one (Mahony's b0): the corrected
+        # rate is exactly zero although the reading is not
+        for bias in (np.array([0.01, -0.02, 0.005]), np.array([0.25, 0.0, 0.0])):
+            yield Case("all", "hist:level", g=np.tile(bias, (6, 1)), a=np.tile(np.array([0.0, 0.0, 9.81]), (6, 1)), m=np.tile(np.array([22.0, 0.0, 41.0]), (6, 1)),
+                       P={"mahony": {"b0": bias.copy()}}, default=False, seed=4)
     # long recordings of a fast-turning sensor: |rate| x sampling step between 0.3 and 6 rad per sample, hundreds to thousands of samples,
     # field samples consistent with the motion (what a filter's carried state - covariance, bias, gains - does over a long, badly conditioned run)
     for i in range(1 if tier == "quick" else gens.reps(2, tier)):
